@@ -18,6 +18,8 @@ mod c17;
 #[cfg(feature = "train")]
 mod c10;
 #[cfg(feature = "train")]
+mod trainref;
+#[cfg(feature = "train")]
 mod c09;
 #[cfg(feature = "train")]
 mod c12;
